@@ -182,6 +182,9 @@ def run_case(case, rec):
         if cfg.get(k) is not None:
             rec.tag(k, cfg[k])
     mol = gen.make_mol(cfg["mol"], cfg["basis"], rng, jitter=cfg["jitter"])
+    if case["idx"] % 4 == 2:
+        mol = gen.vary_system(mol, "fshell")      # one extra f primitive on the heaviest atom (l = 3 rotations)
+        rec.tag("system", "fshell")
     model = gen.build_model(cfg, rng)
     nspin = 1 if cfg["spin"] == "rks" else 2
     dm = gen.psd_dm(mol, rng, nspin)
